@@ -392,6 +392,33 @@ def _idkey(prog):
     return idkey(prog)
 
 
+def sg_singleton(prog: Program) -> RuleResult:
+    """The registry of live instances *is* the graph object every Symbol.__new__, let() and evaluate() reach through SymbolGraph(). While a
+    graph exists, calling the class hands that graph back, whatever arguments the call carries; only clear() makes room for a new one.
+    A construction path that replaces an existing graph forgets every instance that was registered with it - instances that never died."""
+    from ..dtable import explore, Sym, App, term
+
+    r = RuleResult("SG-SINGLETON", "an existing singleton instance is handed back, never replaced", floor=1)
+    sm = prog.cls("singleton.SingletonMeta")
+    f = prog.lookup(sm.qual, "__call__")
+    if f is None:
+        raise AnalysisError("SG-SINGLETON: SingletonMeta.__call__ vanished")
+    paths = explore(prog, f, [Sym(p) for p in f.params] + [Sym("args"), Sym("kwargs")][: max(0, 3 - len(f.params))], max_paths=200)
+    exists = [(v, o, c) for v, o, c in paths if any(k[0] == "in" and "_instances" in str(k[2]) and val is True for k, val in v.items())]
+    if not exists:
+        raise AnalysisError("SG-SINGLETON: no path of SingletonMeta.__call__ on which an instance is registered already")
+    bad = None
+    for v, o, calls in exists:
+        stores = [x for x in calls if isinstance(x, App) and x.fn in ("setitem", "delitem") and "_instances" in term(x.args[0])]
+        creates = [x for x in calls if isinstance(x, App) and x.fn.endswith("__call__")]
+        if stores or creates:
+            bad = bad or (v, stores or creates)
+    r.check(bad is None, "SingletonMeta.__call__#existing-instance-is-kept", site(f), f"{len(exists)} path(s) with a registered instance", "nothing is created or stored while an instance is registered",
+            f"on the path {dict(bad[0]) if bad else ''} an instance is created / stored although one is registered ({term(bad[1][0])[:60] if bad else ''}): SymbolGraph(<anything>) replaces the graph and "
+            "with it the registry of live instances - every let(T, None) afterwards misses the instances created before")
+    return r
+
+
 def run(prog: Program, tier: str) -> List[RuleResult]:
     from .c03 import domain_cache, live_iter
 
@@ -399,4 +426,4 @@ def run(prog: Program, tier: str) -> List[RuleResult]:
     return [sg_register(prog), sg_enum(prog), sg_sweep(prog, census_only=True), sg_evaltime(prog), domain_cache(prog),
             user_truth(prog, ["entity_query_language.symbol_graph"], 3), _idkey(prog),
             # the enumeration is consumed lazily: a sweep between two of its steps must not shift the list under it (a live instance skipped)
-            live_iter(prog)]
+            live_iter(prog), sg_singleton(prog)]
